@@ -428,10 +428,12 @@ where
 			None => 0,
 		};
 		let keychain = wallet.keychain(keychain_mask)?;
-		let parent_key_id = wallet.parent_key_id();
+		// the sender address belongs to the account the transaction was sent from (the
+		// one named in the slate and signed by the recipient), which need not be the
+		// account that is active while finalizing
 		let excess = slate.calc_excess(keychain.secp())?;
 		let sender_key =
-			address::address_from_derivation_path(&keychain, &parent_key_id, derivation_index)?;
+			address::address_from_derivation_path(&keychain, &parent_key, derivation_index)?;
 		let sender_address = OnionV3Address::from_private(&sender_key.0)?;
 		let sig =
 			create_payment_proof_signature(slate.amount, &excess, p.sender_address, sender_key)?;
